@@ -95,6 +95,12 @@ const (
 	kAppendNilBytes  = "append-nil-byte-slice"
 	kTupleDeref      = "tuple-assign-deref-field"
 	kImportedFuncVal = "imported-func-value"
+	// what a review of those repairs found left over in turn
+	kImportedFuncVar = "imported-func-var-call"
+	kFuncVarFile     = "func-var-other-file"
+	kInlineArgCall   = "inline-arg-call-twice"
+	kFuncValueOrder  = "func-value-after-args"
+	kTupleValueVar   = "tuple-assign-value-variable"
 )
 
 type vinfo struct {
@@ -216,6 +222,15 @@ type gen struct {
 	// libFuncs: the functions of the imported package (when the program may have one), libUsed: some statement uses one
 	libFuncs []Func
 	libUsed  bool
+	// file2: the name of the second file of the package ("" when the program is not allowed to have one), file2Used:
+	// something is declared there; funcVars: the package variables of function type made by stFuncVar, by the name of
+	// what they hold
+	file2     string
+	file2Used bool
+	funcVars  map[string]*Func
+	fvOrder   []string
+	// helpers declared only in the programs that call them (side.go, extraFuncs)
+	tickbFn, tickmFn, tickfFn, tickwFn, ticktFn, tickaFn bool
 }
 
 func (g *gen) mark(s string) { g.feat[s] = true }
